@@ -1169,3 +1169,46 @@ def gen_sibling_loops(seed: int, tier: str = "quick") -> Dict[str, Any]:
     cfg = {"cache": rng.random() < 0.5, "lazy": rng.random() < 0.5, "debug": False, "mli": 6,
            "start_seed": None, "connect_seed": None, "order_seed": None}
     return {"groups": groups, "sims": sims, "conns": conns, "until": rng.choice([1, 2]), "config": cfg}
+
+
+# ---------------------------------------------------------------------------------
+# C17: a burst of external events - many steps booked in arbitrary order long before they are due
+def gen_rt_burst(seed: int, tier: str = "quick") -> Dict[str, Any]:
+    rng = random.Random(sub_seed(seed, "rtburst"))
+    f = rng.choice([0.25, 0.25, 0.5])
+    tr = 1.0
+    period = f * tr
+    until = rng.choice([24, 30, 36, 42])
+    n_ev = rng.choice([8, 10, 11, 12, 14])
+    times = rng.sample(range(2, until - 1), min(n_ev, until - 3))      # distinct, arbitrary order
+    if rng.random() < 0.3:
+        times.append(rng.choice(times))                                 # one time booked twice
+    E = {"sid": "E", "type": rng.choice(["event-based", "event-based", "hybrid"]), "group": 0, "n_ent": 1,
+         "meta_style": 0, "transport": rng.choice(["remote", "cmd"]), "set_events": True,
+         "beh": {"bseed": rng.randrange(1 << 30), "p_self": 0.0, "self_d": 1, "p_out": rng.choice([0.5, 1.0]),
+                 "loop_len": 1},
+         "events": [{"at": period * 0.05 * (i + 1), "kind": "future", "dt": t_ - 1} for i, t_ in enumerate(times)],
+         "rt": {"period": period, "until": until, "margin": 0}}
+    if E["type"] == "event-based":
+        E["init_event"] = rng.choice([None, 0])
+    sims = [E]
+    conns = []
+    if rng.random() < 0.5:
+        C = {"sid": "C", "type": "time-based", "group": 0, "n_ent": 1, "meta_style": 0,
+             "transport": rng.choice(["gated", "stock", "remote"]),
+             "beh": {"bseed": rng.randrange(1 << 30), "step_sizes": [rng.choice([1, 2, 3])]}}
+        sims.append(C)
+        conns.append({"src": 0, "se": 0, "dst": 1, "de": 0, "pairs": [["e_out", "m_in"]], "shift": 0, "weak": False})
+    sched = {"profile": "uniform", "seed": rng.randrange(1 << 30), "unit": 1.0, "choices": [0.0]}
+    zeroed = []
+    for i, s_ in enumerate(sims):
+        for nm in (s_["sid"], f"node{i}"):
+            for o in (0, 1, 2):
+                zeroed += [f"{nm}/{o}/xreq", f"{nm}/{o}/xrep"]
+    sched["zeroed"] = zeroed
+    cfg = {"cache": rng.random() < 0.5, "lazy": rng.random() < 0.7, "debug": False, "mli": 100,
+           "start_seed": None, "connect_seed": None, "order_seed": None, "iteration_cost": 0.0,
+           "time_resolution": tr, "rt_factor": f, "rt_strict": False}
+    sc = {"groups": [None], "sims": sims, "conns": conns, "until": until, "config": cfg,
+          "rt": {"f": f, "tr": tr, "dyadic": True, "durations": [0.0], "blocking": False, "burst": True}}
+    return {"scenario": sc, "schedule": sched}
